@@ -137,6 +137,7 @@ PROPS = {
                      "rewrites R5 (map_err + ? -> match/return; iter().all -> verified helper all_zero)"],
     ),
     'C19': dict(
+        standins=['serdes_streams'],
         units_quick=['serdes', 'serout', 'codec'], units_thorough=['serdes', 'serout', 'codec', 'encode', 'scalar'], timeout=600,
         claim="reading side, points: deserialize for G1, G2, G1Affine, G2Affine (real generic bodies over a byte-stream reader): on success "
               "exactly 48/96 resp. 96/192 bytes are consumed and the value is what the checked decoder of unit codec returns for exactly those bytes; "
